@@ -805,7 +805,8 @@ func (h *harness) runScenario(sc scenario) (err error) {
 	info.WDropped = r.wdrops
 	info.Up = !dropped
 	info.Reasons = r.reasons
-	if sc.Pred != nil && deviations == 0 {
+	// (two abstract flips of the same field may cancel at byte level, so only single-step scripts are compared)
+	if sc.Pred != nil && deviations == 0 && len(sc.Adv) <= 1 {
 		info.Drift = comparePrediction(sc.Pred, &info)
 	}
 	if len(sc.Adv) == 0 && !dropped && !info.Inverted {
